@@ -179,4 +179,32 @@ PROPS["C05"] = dict(
     trusted=["harness/internal/puppet (seals records with its own SM4-GCM / CBC+HMAC-SM3)", "Config.OnAlert to observe alert codes"],
 )
 
+PROPS["C04"] = dict(
+    technique="Independent Gallina specification written from the standards (SM3/HMAC-SM3, PRF and key block of GB/T 38636 6.5, SM4 of GB/T 32907, CBC, GCM, record protection for the 5-byte and the 13-byte header) with Coq proofs about the specification itself (key-block partition, direction views, SM4/CBC/GCM/record round trips, injectivity of the authenticated string, nonce uniqueness, the constant-time padding check equals the declarative one); correspondence = captured connections of the real stacks re-derived bit for bit inside Coq with vm_compute",
+    level_text="Theorems about the specification (six key-block slices contiguous/disjoint/in order, client write = server read, sm4_decrypt after sm4_encrypt is the identity for every key and block, "
+               "CBC and record round trips for both modes and both header forms, MAC input and AAD determine sequence number/epoch, type, version, length, GCM nonces never repeat for distinct "
+               "sequence numbers, Go's extractPadding bit arithmetic equals 'last p+1 bytes equal p') proved in Coq; for every captured connection (4 suites x full/resumed x client "
+               "authentication x TLCP/DTLCP, random application writes both ways) Coq derives the master secret from the pre-master secret and the hello randoms, cuts the key block, opens every "
+               "protected wire record of each direction under that direction's key and sequence number, recomputes both Finished values from the SM3 transcript, and compares plaintexts, "
+               "master secrets of both session caches and per-record nonces/IVs.",
+    level_note="Trusted: Coq kernel + vm_compute; the specification (Spec/SM3, SM4, Modes, PRF, RecordProt) is a hand-written reading of the standards, validated inside Coq on the GB/T 32905 and GB/T 32907 "
+               "vectors and on CBC/GCM vectors produced once with gmsm. ECC suites: the pre-master secret is obtained by decrypting the captured ClientKeyExchange with the server's encryption key "
+               "using gmsm (SM2 decryption trusted). ECDHE suites: the master secret is taken from the session caches (SM2 key agreement trusted) and everything downstream is checked. "
+               "DTLCP abbreviated handshakes used to fail at the client (finding F19, fixed); if that ever returns the capture reports it as abbreviated-handshake-fails. "
+               "F18 (DTLCP writeSeq is a 64-bit counter written as 48 bits without a wrap check: nonce reuse after 2^48 records of one epoch) is outside the reachable captures and is not demonstrated; "
+               "C04_gcm_nonce_unique states the 2^48 bound it violates.",
+    code_names={1: "master-secret-differs", 2: "client-to-server-record-does-not-open-under-client-write-keys",
+                3: "server-to-client-record-does-not-open-under-server-write-keys", 4: "client-finished-differs", 5: "server-finished-differs",
+                6: "application-plaintext-differs", 7: "nonce-or-explicit-iv-repeated-under-one-key",
+                8: "sequence-number-or-epoch-not-authenticated-as-specified", 9: "pre-master-secret-malformed",
+                11: "record-version-or-type-unexpected", 12: "explicit-iv-is-not-the-next-config-rand-output",
+                20: "unknown-suite", 21: "capture-malformed"},
+    assumptions=["SM2 decryption of the ClientKeyExchange (ECC suites) and the SM2 key agreement (ECDHE suites) are outside the specification: the pre-master secret resp. the master secret is an input",
+                 "round-trip theorems assume well-formed inputs (byte values below 256, 16-byte CBC IV / 8-byte explicit nonce, header fields within their widths, plaintext at most 2^14+2048 bytes)"],
+    trusted=["verif hooks SessionState.VerifMaster / VerifSessionID, Conn.VerifFinished (tlcp, dtlcp)", "gmsm sm2.PrivateKey.Decrypt for the pre-master secret",
+             "tk.Wire record tap / tk.VNet datagram tap, tk.DetRand as Config.Rand",
+             "Spec/SM3.v, Spec/SM4.v, Spec/Modes.v (validated on standard / gmsm vectors inside Coq)"],
+)
+
+
 NOT_YET = {}
